@@ -107,8 +107,12 @@ pub fn family(seed: u64, http: bool, nu: bool) -> Family {
     let mut ts = tsets[rng.gen_range(0..tsets.len())];
     if http {
         // the request line carries the topic verbatim: keep to URL-safe ASCII there
-        ts = [tsets[0], tsets[1], tsets[5], tsets[6]][rng.gen_range(0..4)];
-        ts[5] = "u~u";
+        // (and, among those, characters that are legal in a request target but that an over-eager client would escape)
+        let special: [&str; 6] = ["c%", "c%2", "c%25", "a|b", "", "x^y{z}"];
+        ts = [tsets[0], tsets[1], tsets[5], tsets[6], special][rng.gen_range(0..5)];
+        if ts != special {
+            ts[5] = "u~u";
+        }
     }
     if nu {
         // a topic is a string literal in the script: printable text of any script, no control characters
@@ -151,6 +155,8 @@ pub fn family(seed: u64, http: bool, nu: bool) -> Family {
         json!(12345),
         deep,
         json!({"big": "x".repeat(5000)}),
+        // one line of NDJSON that needs several reads on the client side
+        json!({"huge": "0123456789abcdef".repeat(2600), "tail": "end"}),
     ];
     let mut idx: Vec<usize> = (0..mpool.len()).collect();
     idx.shuffle(&mut rng);
@@ -1052,7 +1058,12 @@ impl Run {
         let topic = ["tA", "tAB", "tB"][self.rng.gen_range(0..3)];
         let topic_s = self.fam.topics.get(topic).cloned().unwrap();
         let target = if head {
-            format!("/head/{topic_s}?follow=true&context={ctx}")
+            // (the system context is what the route assumes when no context is named)
+            if ctx == Self::zero() && self.rng.gen_bool(0.5) {
+                format!("/head/{topic_s}?follow=true")
+            } else {
+                format!("/head/{topic_s}?follow=true&context={ctx}")
+            }
         } else if lim > 0 {
             // history + live with a heartbeat and a limit: pulses are not counted, the stream ends after `lim`
             format!("/?follow=3&limit={lim}&context-id={ctx}")
